@@ -3,7 +3,7 @@ package ion
 // C10: symbols in a stream resolve against the symbol table in force at that point.
 //
 // Streams of the shape  BVM  LST_A  $s0  LST_B  $s1  [BVM]  $s2  are built in binary and in text, where LST_A is a fixed
-// local symbol table (symbols ["p","q"]), LST_B varies over: replace / append (imports:$ion_symbol_table), 0-1 local
+// local symbol table (symbols ["p","q"]; with aimp=1: an import of t1 v1 and no local symbols), LST_B varies over: replace / append (imports:$ion_symbol_table), 0-1 local
 // symbols (a string or a non-string gap), 0-1 import {name, version, max_id} with name from {t1, t2, t3, zz (not in the
 // catalog)}, version 1..3, max_id absent or 0/2/4; s0, s1, s2 are symbolic symbol IDs. The catalog holds t1 v1
 // [a,b,c], t1 v2 [a,b,c,d,e], t2 v1 [x,y], t3 v2 [m,n] (no v1). The independent decoder refBinDecode (same catalog, same rules: exact
@@ -124,6 +124,13 @@ func H_C10_stream() {
 		vassume(s2 <= 20)
 	}
 	lstA := vTLV(0xE0, vCat([]byte{0x81, 0x83}, vTLV(0xD0, vCat([]byte{0x87}, vTLV(0xB0, vCat(vStr("p"), vStr("q"))...))...))...)
+	lstAText := "$ion_symbol_table::{symbols:[\"p\",\"q\"]} "
+	if vparam("aimp", 0) == 1 {
+		// LST_A imports t1 v1 (max_id 3) and declares no local symbols: an appending LST_B must carry the import over
+		imp := vCat([]byte{0x84}, vStr("t1"), []byte{0x85, 0x21, 1, 0x88, 0x21, 3})
+		lstA = vTLV(0xE0, vCat([]byte{0x81, 0x83}, vTLV(0xD0, vCat([]byte{0x86}, vTLV(0xB0, vTLV(0xD0, imp...)...))...))...)
+		lstAText = "$ion_symbol_table::{imports:[{name:\"t1\",version:1,max_id:3}]} "
+	}
 	bin := vCat(vBVM, lstA, []byte{0x71, s0}, l.binary(), []byte{0x71, s1})
 	if midBVM {
 		bin = vCat(bin, vBVM)
@@ -137,7 +144,7 @@ func H_C10_stream() {
 	rcat := NewCatalog(NewSharedSymbolTable("t1", 1, vC10T1v1), NewSharedSymbolTable("t1", 2, vC10T1v2), NewSharedSymbolTable("t2", 1, vC10T2v1), NewSharedSymbolTable("t3", 2, vC10T3v2))
 	var r Reader
 	if text {
-		doc := "$ion_1_0 $ion_symbol_table::{symbols:[\"p\",\"q\"]} $" + vSidText(s0) + " " + l.text() + "$" + vSidText(s1) + " "
+		doc := "$ion_1_0 " + lstAText + "$" + vSidText(s0) + " " + l.text() + "$" + vSidText(s1) + " "
 		if midBVM {
 			doc += "$ion_1_0 "
 		}
